@@ -39,6 +39,13 @@ ProfArithIf == [Base EXCEPT !.methods = {"ok", "vals"}, !.consts = {<<"int", 0, 
                   !.binops = {"+"}, !.cmpops = {}, !.ifexp = TRUE, !.aggs = {"Aggregate"}, !.select = FALSE, !.where = FALSE,
                   !.rows = {"bool"}, !.colls = {}, !.start = "perobj", !.must = {"If"}]
 
+\* C13, fourth profile: every small expression of the arithmetic grammar DIVIDED by an integer constant (and dividing one):
+\* whatever the translator believes the type of the expression to be, the C++ type it really has decides whether this
+\* division truncates
+ProfIntDiv == [ProfArith EXCEPT !.start = "perobj_div", !.iconsts = {2}, !.consts = {<<"int", 3, 1>>},
+                 !.methods = {"n", "ok", "vals"}, !.aggs = {"Count", "Sum", "Aggregate"}, !.cmpops = {}, !.not = FALSE, !.boolConst = FALSE]
+ProfIntRDiv == [ProfIntDiv EXCEPT !.start = "perobj_rdiv"]
+
 \* C13 core table: every binary / comparison operator over every pair of operand kinds, exhaustively
 ProfArithTable == [ProfArith EXCEPT !.unops = {}, !.not = FALSE, !.aggs = {"Count"}, !.ifexp = FALSE, !.boolConst = FALSE]
 
